@@ -6,7 +6,7 @@ def c01_eq_pointer_shortcut(op, impl, model, args):
     function).  Recognised by: the source compares an identifier with itself, the semantics give an
     error and the implementation a value."""
     src = op.get("src", "")
-    if not re.search(r"\((\w+) [=!]= \1\)", src):
+    if not re.search(r"\b(\w+)\)* [=!]= \(*\1\b", src):
         return False
     spec = model.get("spec", {})
     if "err" in spec and "ok" in impl:
